@@ -449,5 +449,6 @@ ObjView(o) == [type |-> o.type, os |-> o.os, depth |-> o.depth, lidx |-> o.lidx,
 TopoView(t) == [objs |-> [p \in Pos(t) |-> ObjView(O(t, p))], depth |-> t.depth, tcs |-> t.tcs, tns |-> t.tns, tacs |-> t.tacs, tans |-> t.tans]
 \* a synthetic description carries the types, the arities and the PU / NUMA node indexes (seen in the sets)
 SynLevel(t, d) == [k \in DOMAIN LObjs(t, d) |-> LET o == O(t, LObjs(t, d)[k]) IN [type |-> o.type, cs |-> o.cs, ns |-> o.ns, arity |-> o.arity, marity |-> o.marity]]
+PUView(t) == [k \in DOMAIN LObjs(t, t.depth - 1) |-> O(t, LObjs(t, t.depth - 1)[k]).cs]
 SynView(t) == [depth |-> t.depth, levels |-> [d \in 0..(t.depth - 1) |-> SynLevel(t, d)], numa |-> SynLevel(t, -3)]
 =============================================================================
